@@ -556,8 +556,104 @@ def load_modelcache():
         claripy_ns = type("NS", (), {"And": staticmethod(mand), "Or": staticmethod(mor)})
         _cache["mc"] = loader.load("claripy/frontend/mixin/model_cache_mixin.py", "claripy.frontend.mixin.model_cache_mixin",
                                    overrides={"claripy": claripy_ns, "false": (lambda: _MFALSE), "ModelCache": MC,
-                                              "Base": EH})
+                                              "Base": EH, "backends": _MBackends})
     return _cache["mc"]
+
+
+class _MConcrete:
+    """contract of backends.concrete.eval(e, 1) on a variable-free expression: its value"""
+    @staticmethod
+    def eval(e, n):
+        if getattr(e, "conc", None) is None:
+            from claripy.errors import BackendError
+            raise BackendError("spec: not a constant")
+        return [e.conc]
+
+
+class _MBackends:
+    concrete = _MConcrete
+
+
+class VarE(EH):
+    """the expression `i` itself: the one variable of the universe (its value under assignment j is j)"""
+    def __init__(self):
+        self.name = "var_i"
+        self.table = [z3.BitVecVal(j, WV) for j in range(UM)]
+        self.variables = frozenset({"i"})
+        self.uid = 777
+        self.symbolic = True
+        self.op = "BVS"
+        self.depth = 1
+
+
+class ConstE:
+    def __init__(self, k):
+        self.conc = k
+        self.symbolic = False
+        self.op = "BVV"
+        self.variables = frozenset()
+        self.depth = 1
+
+
+class TrivEq(MH):
+    """the constraint `i == k` as the real code sees it (depth 2, op __eq__, a BVS against a constant)"""
+    def __init__(self, k, swapped=False, op="__eq__"):
+        var, const = VarE(), ConstE(k)
+        sem = (1 << k) if op == "__eq__" else (((1 << UM) - 1) & ~(1 << k))
+        super().__init__(mask=z3.BitVecVal(sem, UM), name="triv")
+        self.args = (const, var) if swapped else (var, const)
+        self.op = op
+        self.depth = 2
+        self.var = var
+
+
+def ob_modelcache_trivial(tier="quick"):
+    """ModelCacheMixin._add with _trivial_model_optimization under contract: the constraint added to an EMPTY solver has the shape
+    `variable == constant` (also: constant == variable, variable != constant - the shapes the optimisation must tell apart); post: the
+    cache invariant (cached models satisfy the constraints; every exhausted mark is true of the cached models) and the model set."""
+    global UM, WV
+    UM, WV = 4, 2
+    FAULTS["on"] = False
+    ns = load_modelcache()
+    H = type("HM", (ns["ModelCacheMixin"], MSpec), {})
+    proxies.set_iw(12)
+
+    def body(c):
+        CH.n = 0
+        s = object.__new__(H)
+        s.U = MCtx(c)
+        c.assume(s.U.G == (1 << UM) - 1)          # no constraints yet
+        s.constraints = []
+        s.variables = set() if c.choose([True, True], "variable-known") == 0 else {"i"}
+        s._models = set()
+        s._exhausted = False
+        for f in FLAGS:
+            setattr(s, f, {})
+        k = c.choose([True] * UM, "constant")
+        shape = c.choose([True, True, True], "shape")
+        con = TrivEq(k, swapped=(shape == 1), op="__ne__" if shape == 2 else "__eq__")
+        e = con.var
+        second = c.choose([True, True], "with-a-second-constraint") == 1
+        new = [con] + ([MH(name="n")] if second else [])
+        inval = c.choose([True, True], "invalidate_cache") == 0
+        label = "ModelCacheMixin._add[variable==constant]"
+        G0 = s.U.G
+        try:
+            s._add(new, invalidate_cache=inval)
+        except (PathEnd, Undecided):
+            raise
+        except Exception as ex:  # noqa
+            import traceback
+            c.fail(label + "/raises", f"{type(ex).__name__}: {ex} " + traceback.format_exc()[-300:], kind="raises")
+            return "raised"
+        want = G0
+        for h in new:
+            want = want & h.mask
+        c.check(label + "/models-are-the-intersection", s.U.G == want, "after _add the model set is not the old one intersected with the added constraints")
+        _mc_inv(c, s, e, label)
+        return f"shape{shape}:{'cached' if s._models else 'not-cached'}"
+
+    return explore(body, {"budget_s": 300, "max_depth": 3000, "max_failures": 3, "timeout_ms": 20000})
 
 
 _MFALSE = object()
